@@ -229,6 +229,20 @@ func checkC11(r *evid.Run) {
 				}
 			}
 		}
+		// many roots and nothing wrong with any of them (more than the stages and their error channels hold): nil, all done
+		for _, n := range []int{16, 40} {
+			fv := make([]string, n)
+			for i := range fv {
+				fv[i] = "ok"
+			}
+			for _, p := range []int{1, 16} {
+				pc := buildPipeCase(sink, fv, n+1)
+				rq := pc.Req
+				rq.Procs = p
+				rq.Record = false
+				jobs = append(jobs, job{pc, rq, "no", false})
+			}
+		}
 		// a writer that starts failing at some Write call while other roots are in flight (output sinks)
 		if sink == "text" || sink == "enc" || sink == "dry" {
 			for _, n := range []int{2, 6, 12} {
